@@ -119,7 +119,16 @@ func c03Value(cs *core.Case, p rtcp.Packet, where string) {
 			kfs = append(kfs, "KF1")
 		}
 		if strings.HasSuffix(base, "num_reports") {
-			kfs = append(kfs, "KF2")
+			// known finding KF2 exactly: the field holds the number of metric blocks minus one
+			for _, fl := range e.Fields {
+				if fl.Name == f && fl.Len == 2 && fl.Off+2 <= len(b) {
+					got16 := int(b[fl.Off])<<8 | int(b[fl.Off+1])
+					want16 := int(e.B[fl.Off])<<8 | int(e.B[fl.Off+1])
+					if want16 > 0 && got16 == want16-1 {
+						kfs = append(kfs, "KF2")
+					}
+				}
+			}
 		}
 		cs.Fail("layout/"+k.String()+"/"+base, det(core.W{"offset": i, "field": f, "got": b[i], "want": e.B[i]}), kfs...)
 	}
